@@ -291,21 +291,21 @@ Proof.
 Qed.
 
 Lemma step_ok m c s o : (S m < n)%nat -> Inv m c (sget s) -> op_ok lc (S m) o ->
-  exists c' s', runs_step lc (c, s) o = Ok (c', s') /\ Inv (S m) c' (sget s').
+  exists c' s', runs_step lc (c, s) m o = Ok (c', s') /\ Inv (S m) c' (sget s').
 Proof.
   intros Hm HI [Hb Es]. destruct o as [i j]. cbn [fst snd] in Hb, Es.
   unfold runs_step. cbn [fst snd]. rewrite !nth_error_nz by lia.
-  pose proof (nz_pos i ltac:(lia)) as Pi. pose proof (nz_pos j ltac:(lia)) as Pj.
-  pose proof (nz_small i ltac:(lia)) as Si. pose proof (nz_small j ltac:(lia)) as Sj.
+  pose proof (nz_pos (S m) Hm) as Pm. pose proof (nz_small (S m) Hm) as Sm.
+  rewrite (is_uint64_true (nz lc (S m))) by lia. cbn [negb].
   unfold min_max. destruct (nz lc i <? nz lc j) eqn:E.
-  - apply Z.ltb_lt in E. rewrite !is_uint64_true by lia. cbn [negb orb].
+  - apply Z.ltb_lt in E.
     eexists _, _. split; [reflexivity|]. apply step_core; try assumption; lia.
-  - apply Z.ltb_ge in E. rewrite !is_uint64_true by lia. cbn [negb orb].
+  - apply Z.ltb_ge in E.
     eexists _, _. split; [reflexivity|]. apply step_core; try assumption; lia.
 Qed.
 
 Lemma loop_ok : forall cnt m p c s, Forall2 (op_ok lc) (seq (S m) cnt) p -> (S m + cnt = n)%nat ->
-  Inv m c (sget s) -> exists c' g, runs_loop lc p (c, s) = Ok c' /\ Inv (n - 1) c' g.
+  Inv m c (sget s) -> exists c' g, runs_loop lc p m (c, s) = Ok c' /\ Inv (n - 1) c' g.
 Proof.
   induction cnt as [|cnt IH]; intros m p c s HF Hn HI.
   - inversion HF; subst. exists c, (sget s). split; [reflexivity|]. replace (n - 1)%nat with m by lia. exact HI.
@@ -330,28 +330,29 @@ Proof.
 Qed.
 End Small.
 
-(* ---------- refusal: the guard on the operands ---------- *)
-Definition guard_ok (o : op) : bool := is_uint64 (nz lc (fst o)) && is_uint64 (nz lc (snd o)).
+(* ---------- refusal: the guard on the sum lc[k+1] ---------- *)
+Definition guard_ok (k : nat) : bool := is_uint64 (nz lc (S k)).
 
-Lemma runs_step_guard c s o : (fst o < n)%nat -> (snd o < n)%nat ->
-  (guard_ok o = true /\ exists st', runs_step lc (c, s) o = Ok st') \/
-  (guard_ok o = false /\ runs_step lc (c, s) o = Err ($"toolarge")).
+Lemma runs_step_guard c s k o : (fst o < n)%nat -> (snd o < n)%nat -> (S k < n)%nat ->
+  (guard_ok k = true /\ exists st', runs_step lc (c, s) k o = Ok st') \/
+  (guard_ok k = false /\ runs_step lc (c, s) k o = Err ($"toolarge")).
 Proof.
-  intros Hi Hj. unfold runs_step, guard_ok. rewrite !nth_error_nz by assumption.
+  intros Hi Hj Hk. unfold runs_step, guard_ok. rewrite !nth_error_nz by assumption.
   unfold min_max. destruct (nz lc (fst o) <? nz lc (snd o));
-    destruct (is_uint64 (nz lc (fst o))); destruct (is_uint64 (nz lc (snd o))); cbn [negb orb andb];
+    destruct (is_uint64 (nz lc (S k))); cbn [negb];
     (left; split; [reflexivity|eexists; reflexivity]) || (right; split; reflexivity).
 Qed.
 
-Lemma runs_loop_guard : forall p st, Forall (fun o => (fst o < n)%nat /\ (snd o < n)%nat) p ->
-  (forallb guard_ok p = true /\ exists c, runs_loop lc p st = Ok c) \/
-  (forallb guard_ok p = false /\ runs_loop lc p st = Err ($"toolarge")).
+Lemma runs_loop_guard : forall p k st, Forall (fun o => (fst o < n)%nat /\ (snd o < n)%nat) p ->
+  (k + length p < n)%nat ->
+  (forallb guard_ok (seq k (length p)) = true /\ exists c, runs_loop lc p k st = Ok c) \/
+  (forallb guard_ok (seq k (length p)) = false /\ runs_loop lc p k st = Err ($"toolarge")).
 Proof.
-  induction p as [|o p IH]; intros [c s] HF.
+  induction p as [|o p IH]; intros k [c s] HF Hk.
   - left. split; [reflexivity|]. eexists. reflexivity.
-  - inversion HF as [|? ? [Hi Hj] HF']; subst. cbn [forallb runs_loop].
-    destruct (runs_step_guard c s o Hi Hj) as [[-> (st' & ->)]|[-> ->]].
-    + cbn [andb obind]. apply IH. exact HF'.
+  - inversion HF as [|? ? [Hi Hj] HF']; subst. cbn [length] in Hk. cbn [length seq forallb runs_loop].
+    destruct (runs_step_guard c s k o Hi Hj ltac:(lia)) as [[-> (st' & ->)]|[-> ->]].
+    + cbn [andb obind]. apply IH; [exact HF'|lia].
     + right. split; reflexivity.
 Qed.
 
@@ -363,54 +364,43 @@ Proof.
   - apply IH. intros k' Hk'. apply Hks. right. exact Hk'.
 Qed.
 
-Lemma forall2_pick ks p k : Forall2 (op_ok lc) ks p -> In k ks -> exists o, In o p /\ op_ok lc k o.
-Proof.
-  induction 1 as [|k0 o ks p Ho HF IH]; intros Hk; [destruct Hk|].
-  destruct Hk as [->|Hk]; [exists o; split; [left; reflexivity|exact Ho]|].
-  destruct (IH Hk) as (o' & Hin & Hok). exists o'. split; [right; exact Hin|exact Hok].
-Qed.
+Lemma forall2_len {A B} (R : A -> B -> Prop) xs ys : Forall2 R xs ys -> length xs = length ys.
+Proof. induction 1; cbn [length]; congruence. Qed.
 
 Lemma program_range p : program lc = Ok p ->
-  Forall (fun o => (fst o < n)%nat /\ (snd o < n)%nat) p /\ Forall2 (op_ok lc) (seq 1 (n - 1)) p.
+  Forall (fun o => (fst o < n)%nat /\ (snd o < n)%nat) p /\ length p = (n - 1)%nat.
 Proof.
   intros Ep. destruct (program_ok lc Hc) as (p' & Ep' & HF). rewrite Ep in Ep'. injection Ep' as <-.
-  split; [|exact HF]. apply (forall2_range _ _ HF). intros k Hk. apply in_seq in Hk. fold n in Hk. lia.
+  split.
+  - apply (forall2_range _ _ HF). intros k Hk. apply in_seq in Hk. fold n in Hk. lia.
+  - apply forall2_len in HF. rewrite seq_length in HF. fold n in HF. lia.
 Qed.
 
 (* a valid chain of lengths gives a chain or the "too large" refusal, never a panic or another error *)
 Theorem runs_chain_cases_aux :
   (exists c, runs_chain lc = Ok c) \/ runs_chain lc = Err ($"toolarge").
 Proof.
-  destruct (program_ok lc Hc) as (p & Ep & _). destruct (program_range p Ep) as [HR _].
+  destruct (program_ok lc Hc) as (p & Ep & _). destruct (program_range p Ep) as [HR HL].
+  assert (Hlt : (0 + length p < n)%nat) by (pose proof n_pos; unfold n in *; lia).
   unfold runs_chain. rewrite Ep. cbn [obind].
-  destruct (runs_loop_guard p ([1], []) HR) as [[_ H]|[_ H]]; [left; exact H|right; exact H].
+  destruct (runs_loop_guard p 0 ([1], []) HR Hlt) as [[_ H]|[_ H]]; [left; exact H|right; exact H].
 Qed.
 
-(* an operation with an operand that does not fit 64 bits is refused *)
-Theorem runs_chain_refuses_op_aux p : program lc = Ok p ->
-  Exists (fun o => w64 <= nz lc (fst o) \/ w64 <= nz lc (snd o)) p ->
+(* every length that does not fit 64 bits is refused *)
+Theorem runs_chain_refuses_aux : (exists l, In l lc /\ w64 <= l) ->
   runs_chain lc = Err ($"toolarge").
 Proof.
-  intros Ep Hex. destruct (program_range p Ep) as [HR _].
+  intros (l & Hl & Hbig). destruct (program_ok lc Hc) as (p & Ep & _).
+  destruct (program_range p Ep) as [HR HL].
+  assert (Hlt : (0 + length p < n)%nat) by (pose proof n_pos; unfold n in *; lia).
   unfold runs_chain. rewrite Ep. cbn [obind].
-  destruct (runs_loop_guard p ([1], []) HR) as [[Hall _]|[_ H]]; [|exact H].
-  exfalso. apply Exists_exists in Hex as (o & Ho & Hbig).
-  rewrite forallb_forall in Hall. specialize (Hall o Ho). unfold guard_ok in Hall.
-  apply andb_true_iff in Hall as [H1 H2].
-  destruct Hbig as [Hb|Hb]; [rewrite is_uint64_false in H1 by exact Hb|rewrite is_uint64_false in H2 by exact Hb]; discriminate.
-Qed.
-
-(* a length of 2^65 or more is always refused: one of its two summands is at least 2^64 *)
-Theorem runs_chain_refuses_big_aux : (exists l, In l lc /\ 2 * w64 <= l) ->
-  runs_chain lc = Err ($"toolarge").
-Proof.
-  intros (l & Hl & Hbig). destruct (program_ok lc Hc) as (p & Ep & HF).
-  apply (runs_chain_refuses_op_aux p Ep).
-  destruct (In_nth lc l 0 Hl) as (k & Hk & Ek). fold n in Hk.
-  assert (Hk1 : (1 <= k)%nat).
-  { destruct k; [|lia]. pose proof L_0 as E0. unfold L, nz in E0. rewrite Ek in E0. unfold w64 in Hbig. lia. }
-  destruct (forall2_pick _ _ k HF) as (o & Ho & [Hb Es]); [apply in_seq; fold n; lia|].
-  apply Exists_exists. exists o. split; [exact Ho|]. unfold nz in *. rewrite Ek in Es. lia.
+  destruct (runs_loop_guard p 0 ([1], []) HR Hlt) as [[Hall _]|[_ H]]; [|exact H].
+  exfalso. destruct (In_nth lc l 0 Hl) as (k & Hk & Ek). fold n in Hk.
+  destruct k as [|k].
+  { pose proof L_0 as E0. unfold L, nz in E0. rewrite Ek in E0. unfold w64 in Hbig. lia. }
+  assert (Hks : In k (seq 0 (length p))) by (apply in_seq; unfold n in *; lia).
+  rewrite forallb_forall in Hall. specialize (Hall k Hks).
+  unfold guard_ok, nz in Hall. rewrite Ek, is_uint64_false in Hall by exact Hbig. discriminate.
 Qed.
 End Lengths.
 
@@ -423,69 +413,16 @@ Theorem runs_chain_cases lc : is_chain lc ->
   (exists c, runs_chain lc = Ok c) \/ runs_chain lc = Err ($"toolarge").
 Proof. apply runs_chain_cases_aux. Qed.
 
-Theorem runs_chain_refuses_op lc p : is_chain lc -> program lc = Ok p ->
-  Exists (fun o => 2 ^ 64 <= nz lc (fst o) \/ 2 ^ 64 <= nz lc (snd o)) p ->
+Theorem runs_chain_refuses lc : is_chain lc -> (exists l, In l lc /\ 2 ^ 64 <= l) ->
   runs_chain lc = Err ($"toolarge").
-Proof. intros Hc Ep Hex. exact (runs_chain_refuses_op_aux lc Hc p Ep Hex). Qed.
+Proof. apply runs_chain_refuses_aux. Qed.
 
-Theorem runs_chain_refuses lc : is_chain lc -> (exists l, In l lc /\ 2 ^ 65 <= l) ->
-  runs_chain lc = Err ($"toolarge").
-Proof. apply runs_chain_refuses_big_aux. Qed.
-
-(* ---------- the window the guard does not cover: a sum that overflows the machine word ---------- *)
-Lemma runs_step_last lc c0 s0 o c s1 : runs_step lc (c0, s0) o = Ok (c, s1) ->
-  exists x y pre, nth_error lc (fst o) = Some x /\ nth_error lc (snd o) = Some y /\
-                  c = pre ++ [ones (wrap64 (Z.to_N x + Z.to_N y))].
+(* the two cases are exclusive and exhaustive: Ok exactly when every length fits a machine word *)
+Theorem runs_chain_ok_iff lc : is_chain lc ->
+  ((exists c, runs_chain lc = Ok c) <-> forall l, In l lc -> l < 2 ^ 64).
 Proof.
-  unfold runs_step. destruct (nth_error lc (fst o)) as [x|]; [|discriminate].
-  destruct (nth_error lc (snd o)) as [y|]; [|discriminate].
-  unfold min_max. destruct (x <? y).
-  - destruct (negb (is_uint64 x) || negb (is_uint64 y))%bool; [discriminate|]. intros H. injection H as <- _.
-    exists x, y. eexists. split; [reflexivity|]. split; [reflexivity|]. rewrite app_assoc. reflexivity.
-  - destruct (negb (is_uint64 y) || negb (is_uint64 x))%bool; [discriminate|]. intros H. injection H as <- _.
-    exists x, y. eexists. split; [reflexivity|]. split; [reflexivity|]. rewrite app_assoc, (N.add_comm (Z.to_N x)). reflexivity.
-Qed.
-
-Lemma runs_loop_app lc o : forall p st c, runs_loop lc (p ++ [o]) st = Ok c ->
-  exists c0 s0 s1, runs_step lc (c0, s0) o = Ok (c, s1).
-Proof.
-  induction p as [|o' p IH]; intros [c0 s0] c H.
-  - cbn [app runs_loop] in H. destruct (runs_step lc (c0, s0) o) as [[c1 s1]| | |] eqn:E; try discriminate H.
-    cbn [obind fst] in H. injection H as <-. now exists c0, s0, s1.
-  - cbn [app runs_loop] in H. destruct (runs_step lc (c0, s0) o') as [st'| | |]; try discriminate H.
-    cbn [obind] in H. eapply IH. exact H.
-Qed.
-
-Definition pow_chain : list Z := map (fun k => 2 ^ Z.of_nat k) (seq 0 65).
-
-Theorem runs_chain_overflow_witness :
-  is_chain pow_chain /\ (forall l, In l pow_chain -> l <= 2 ^ 64) /\
-  exists c, runs_chain pow_chain = Ok c /\ In 0 c.
-Proof.
-  assert (Hc : is_chain pow_chain) by (eapply program_sound; vm_compute; reflexivity).
-  split; [exact Hc|]. split.
-  { intros l Hl. unfold pow_chain in Hl. apply in_map_iff in Hl as (k & <- & Hk). apply in_seq in Hk.
-    apply Z.pow_le_mono_r; lia. }
-  set (p' := map (fun k => (k, k)) (seq 0 63)).
-  assert (Ep : program pow_chain = Ok (p' ++ [(63, 63)%nat])) by (vm_compute; reflexivity).
-  destruct (program_range pow_chain Hc _ Ep) as [HR _].
-  unfold runs_chain. rewrite Ep. cbn [obind].
-  destruct (runs_loop_guard pow_chain (p' ++ [(63, 63)%nat]) ([1], []) HR) as [[_ (c & E)]|[Hf _]].
-  - exists c. split; [exact E|].
-    destruct (runs_loop_app _ _ _ _ _ E) as (c0 & s0 & s1 & Es).
-    destruct (runs_step_last _ _ _ _ _ _ Es) as (x & y & pre & Ex & Ey & ->).
-    cbn [fst snd] in Ex, Ey.
-    assert (E63 : nth_error pow_chain 63 = Some (2 ^ 63)) by (vm_compute; reflexivity).
-    rewrite E63 in Ex, Ey. injection Ex as <-. injection Ey as <-.
-    apply in_or_app. right. left. vm_compute. reflexivity.
-  - exfalso. vm_compute in Hf. discriminate.
-Qed.
-
-(* the literal reading "every length that does not fit a machine word is refused" fails in the model *)
-Theorem refusal_window_refuted :
-  ~ (forall lc, is_chain lc -> (exists l, In l lc /\ 2 ^ 64 <= l) -> runs_chain lc = Err ($"toolarge")).
-Proof.
-  intros H. destruct runs_chain_overflow_witness as (Hc & _ & c & E & _).
-  rewrite (H pow_chain Hc) in E; [discriminate|].
-  exists (2 ^ 64). split; [|lia]. unfold pow_chain. apply in_map_iff. exists 64%nat. split; [reflexivity|apply in_seq; lia].
+  intros Hc. split.
+  - intros (c & E) l Hl. destruct (Z.lt_ge_cases l (2 ^ 64)) as [|Hge]; [assumption|].
+    rewrite (runs_chain_refuses lc Hc (ex_intro _ l (conj Hl Hge))) in E. discriminate.
+  - intros Hs. destruct (runs_chain_valid lc Hc Hs) as (c & E & _). now exists c.
 Qed.
